@@ -156,7 +156,7 @@ Theorem C08_call_variant_pointwise (P S E D O : Type) (devsol : S -> S) (expand 
     (dflt : KalmanSession.variant P S E) :
   lt k (length vs) ->
   List.nth k (List.map snd (KalmanSession.call_model P S E D O devsol expand fwd_of kf sim b dev vs ds dd)) None
-  = List.nth O (List.map snd (KalmanSession.call_model P S E D O devsol expand fwd_of kf sim b dev (cons (List.nth k vs dflt) nil)
+  = List.nth 0%nat (List.map snd (KalmanSession.call_model P S E D O devsol expand fwd_of kf sim b dev (cons (List.nth k vs dflt) nil)
                                  (cons (KalmanSession.etl ds dd k) nil) dd)) None.
 Proof. exact (KalmanSessionProofs.call_pointwise P S E D O devsol expand fwd_of kf sim b dev vs ds dd k dflt). Qed.
 
